@@ -156,7 +156,9 @@ func faults02() []fault02 {
 		{"chain-four-blocks", "", func(a, b *world.World, r *mrand.Rand) { chain(a, a.PKI.Leaf, a.PKI.Inter, a.PKI.Root, a.PKI.Root) }},
 		{"chain-leaf-only", "reject", func(a, b *world.World, r *mrand.Rand) { chain(a, a.PKI.Leaf) }},
 		{"chain-empty", "reject", func(a, b *world.World, r *mrand.Rand) { a.Q.Chain = nil }},
-		{"chain-trailing-two-nuls", "", func(a, b *world.World, r *mrand.Rand) { a.Q.Chain = append(world.ChainPEM(false, a.PKI.Leaf, a.PKI.Inter, a.PKI.Root), 0, 0) }},
+		{"chain-trailing-two-nuls", "", func(a, b *world.World, r *mrand.Rand) {
+			a.Q.Chain = append(world.ChainPEM(false, a.PKI.Leaf, a.PKI.Inter, a.PKI.Root), 0, 0)
+		}},
 		{"chain-trailing-text", "", func(a, b *world.World, r *mrand.Rand) {
 			a.Q.Chain = append(world.ChainPEM(false, a.PKI.Leaf, a.PKI.Inter, a.PKI.Root), []byte("trailing")...)
 		}},
